@@ -43,17 +43,23 @@ InclRoot(p, d) ==                                            \* htree.VerifyIncl
 
 -----------------------------------------------------------------------------
 (* the honest world: trusted tx T, proven tx P *)
-Ops  == {"get0", "getAt", "txbyid", "getRef", "set", "sget0", "sgetRef"}   \* s...: the streaming variants (pkg/client/streams.go)
+Ops  == {"get0", "getAt", "txbyid", "getRef", "set", "sget0", "sgetRef", "vrowT", "vrowF"}
+\* s...: the streaming variants (pkg/client/streams.go); vrowT / vrowF: VerifyRow (pkg/client/sql.go) of a true / a false claim
 RefOps == {"getRef", "sgetRef"}
+RowOps == {"vrowT", "vrowF"}
 Rels == {"newer", "same", "older"}                           \* proven tx is newer than / the same as / older than the trusted one
 RelsOf(op) == IF op = "set" THEN {"newer"} ELSE Rels          \* a write is always newer than the trusted state
-POf(op) == CASE op \in RefOps -> 6 [] op = "set" -> 9 [] OTHER -> 3
+POf(op) == CASE op \in RefOps -> 6 [] op = "set" -> 12 [] op \in RowOps -> 10 [] OTHER -> 3
 SwapP(op) == IF op \in RefOps THEN 7 ELSE POf(op)          \* the tx proven by the honest answer to ANOTHER request (key k2 / reference r2)
 TOf(op, rel) == IF op = "set" THEN 2 ELSE CASE rel = "newer" -> POf(op) - 1 [] rel = "same" -> POf(op) [] rel = "older" -> POf(op) + 1
 
+\* the SQL row of tx 10: table t (id 1 in database 1), columns id = 1 (primary key), a = 2, b = 3; the row (1, 100, 5)
+HonRow == [c \in {1, 2, 3} |-> CASE c = 1 -> 1 [] c = 2 -> 100 [] c = 3 -> 5]
+RowKey(db, tbl, pkval) == <<"row", db, tbl, pkval>>      \* sql.MapKey(prefix, RowPrefix, dbID, tableID, PKIndexID, pk values); the pk column id only selects the encoding
 \* the entries of the proven transaction
 Entries(op) ==
-  CASE op \in RefOps -> <<[key |-> "r1", md |-> "md0", hv |-> HV(RefVal("k1", 0))]>>
+  CASE op \in RowOps -> <<[key |-> RowKey(1, 1, 1), md |-> "md0", hv |-> HV(HonRow)]>>
+    [] op \in RefOps -> <<[key |-> "r1", md |-> "md0", hv |-> HV(RefVal("k1", 0))]>>
     [] op = "set"    -> <<[key |-> "ks", md |-> "md0", hv |-> HV(<<"v", "new">>)]>>
     [] OTHER         -> <<[key |-> "k1", md |-> "md0", hv |-> HV(<<"v", 3>>)], [key |-> "k2", md |-> "md0", hv |-> HV(<<"w", 3>>)]>>
 Digs(ver, es) == [q \in 1..Len(es) |-> Dig(ver, es[q].key, es[q].md, es[q].hv)]
@@ -75,6 +81,8 @@ HonResp(op, rel, swapped) ==
    ekey |-> IF swapped THEN "k2" ELSE "k1", eval |-> IF swapped THEN <<"w", 3>> ELSE <<"v", 3>>, emd |-> "md0",
    etx |-> IF ref THEN 3 ELSE P,
    isRef |-> ref, rkey |-> IF swapped THEN "r2" ELSE "r1", rtx |-> P, rmd |-> "md0", rat |-> 0,
+   \* schema.VerifiableSQLEntry: the raw row and the catalog data the server sends along (nothing proves the latter)
+   srow |-> HonRow, stx |-> P, dbId |-> 1, tblId |-> 1, pkCol |-> 1, colOf |-> [n \in {"id", "a", "b"} |-> CASE n = "id" -> 1 [] n = "a" -> 2 [] n = "b" -> 3],
    \* schema.VerifiableTx
    txhdr |-> Hon(op, P), te |-> es,
    dpS |-> Hon(op, lo), dpT |-> Hon(op, hi), body |-> <<"B", HAlh(Hon(op, lo)), HAlh(Hon(op, hi))>>,
@@ -93,14 +101,17 @@ Muts == EntryMuts \cup RefMuts \cup InclMuts \cup TeMuts
         \cup HdrMuts("txhdr") \cup {"txhdr.ehC"}
         \cup HdrMuts("dpP") \cup {"dpP.ehC"}            \* the dual-proof header on the proven side
         \cup HdrMuts("dpO")                                \* the dual-proof header on the trusted side
-        \cup {"body", "swap"}                           \* swap: the honest answer to another request (key k2 / reference r2)
+        \cup {"body", "swap"}
+        \cup {"sql.val", "sql.tx", "cat.db", "cat.table", "cat.pkcol", "cat.colmap"}   \* cat.colmap: column name a mapped to the id of column b                           \* swap: the honest answer to another request (key k2 / reference r2)
+SqlMuts == {"sql.val", "sql.tx", "cat.db", "cat.table", "cat.pkcol", "cat.colmap"}
 Conflicts == {{"txhdr.eh", "txhdr.ehC"}, {"dpP.eh", "dpP.ehC"}}
 \* fields the operation neither reads nor returns are left out (they cannot matter)
 Irrelevant(op) ==
-  CASE op \in {"get0", "getAt", "sget0"} -> TeMuts \cup RefMuts
-    [] op \in RefOps -> TeMuts \cup {"incl.sib"}
-    [] op = "txbyid" -> EntryMuts \cup RefMuts \cup InclMuts \cup {"swap"}
-    [] op = "set"    -> EntryMuts \cup RefMuts \cup InclMuts \cup {"te.drop", "swap"}
+  CASE op \in {"get0", "getAt", "sget0"} -> TeMuts \cup RefMuts \cup SqlMuts
+    [] op \in RefOps -> TeMuts \cup {"incl.sib"} \cup SqlMuts
+    [] op = "txbyid" -> EntryMuts \cup RefMuts \cup InclMuts \cup {"swap"} \cup SqlMuts
+    [] op = "set"    -> EntryMuts \cup RefMuts \cup InclMuts \cup {"te.drop", "swap"} \cup SqlMuts
+    [] op \in RowOps -> EntryMuts \cup RefMuts \cup TeMuts \cup {"incl.sib", "swap"}
 MutSets(op) == {S \in UNION {kSubset(k, Muts \ Irrelevant(op)) : k \in 0..K} : \A c \in Conflicts : ~(c \subseteq S)}
 
 Bogus(f, old) == IF f = "id" THEN old + 7 ELSE IF f = "ver" THEN 1 - old ELSE IF f = "nent" THEN old + 1 ELSE IF f = "bl" THEN old + 1 ELSE <<"bogus", f, f>>
@@ -112,6 +123,8 @@ GetLeaf(ver, reqKey, r) ==
   IF r.isRef THEN Dig(ver, reqKey, r.rmd, HV(RefVal(r.ekey, r.rat)))
   ELSE Dig(ver, reqKey, r.emd, HV(r.eval))
 
+\* the leaf digest VerifyRow computes: the row key is built from the ids found in the response and the caller's pk value
+RowLeaf(ver, r) == Dig(ver, RowKey(r.dbId, r.tblId, 1), "md0", HV(r.srow))
 ReqKey(op) == IF op \in RefOps THEN "r1" ELSE "k1"
 \* the streaming client encodes a reference under the key found in the response (ReferencedBy.Key)
 LeafKey(op, r) == IF op = "sgetRef" THEN r.rkey ELSE ReqKey(op)
@@ -130,6 +143,12 @@ Altered(op, rel, S) ==
                       !.rtx  = IF "ref.tx" \in S THEN @ + 5 ELSE @,
                       !.rmd  = IF "ref.md" \in S THEN "mdX" ELSE @,
                       !.rat  = IF "ref.atTx" \in S THEN @ + 2 ELSE @,
+                      !.srow = IF "sql.val" \in S THEN [@ EXCEPT ![2] = 5] ELSE @,          \* forged row: a = 5
+                      !.stx  = IF "sql.tx" \in S THEN @ + 5 ELSE @,
+                      !.dbId = IF "cat.db" \in S THEN @ + 1 ELSE @,
+                      !.tblId = IF "cat.table" \in S THEN @ + 1 ELSE @,
+                      !.pkCol = IF "cat.pkcol" \in S THEN 2 ELSE @,
+                      !.colOf = IF "cat.colmap" \in S THEN [@ EXCEPT !["a"] = 3] ELSE @,
                       !.incl.leaf = IF "incl.leaf" \in S THEN 2 ELSE @,
                       !.incl.sib = IF "incl.sib" \in S THEN <<"bogus", "sib", "sib">> ELSE @,
                       !.body = IF "body" \in S THEN <<"bogus", "body">> ELSE @]
@@ -140,6 +159,7 @@ Altered(op, rel, S) ==
       txh0 == AlterHdr(r.txhdr, "txhdr", S)
       \* the entries hash a forger would recompute: the one the client's own computation yields for the forged content
       ehC == IF op \in {"txbyid", "set"} THEN EHof(Digs(txh0.ver, te1))
+             ELSE IF op \in RowOps THEN InclRoot(e1.incl, RowLeaf(txh0.ver, e1))
              ELSE InclRoot(e1.incl, GetLeaf(txh0.ver, LeafKey(op, e1), e1))
       txh == IF "txhdr.ehC" \in S THEN [txh0 EXCEPT !.eh = ehC] ELSE txh0
       pr0 == AlterHdr(IF provenIsTgt THEN r.dpT ELSE r.dpS, "dpP", S)
@@ -190,6 +210,22 @@ ClientStreamGet(reqKey, T, trustedAlh, r) ==
       ret |-> IF r.isRef THEN <<r.ekey, r.eval, r.emd, r.etx, r.rkey, r.rtx, r.rmd, r.rat>> ELSE <<r.ekey, r.eval, r.emd, r.etx>>,
       state |-> <<tgtID, tgtAlh>>]
 
+(* pkg/client/sql.go VerifyRow(row = {a: claim}, table t, pk 1) *)
+ClientVerifyRow(claim, T, trustedAlh, r) ==
+  LET ver == r.txhdr.ver
+      vTx == r.stx
+      tgtBranch == T <= vTx
+      eh  == IF tgtBranch THEN r.dpT.eh ELSE r.dpS.eh
+      srcID == IF tgtBranch THEN T ELSE vTx
+      tgtID == IF tgtBranch THEN vTx ELSE T
+      srcAlh == IF tgtBranch THEN trustedAlh ELSE HAlh(r.dpS)
+      tgtAlh == IF tgtBranch THEN HAlh(r.dpT) ELSE trustedAlh
+  IN [ok |-> /\ r.srow[r.colOf["a"]] = claim               \* verifyRowAgainst(row, decodeRow(value), ColIdsByName)
+             /\ InclRoot(r.incl, RowLeaf(ver, r)) = eh
+             /\ VerifyDualAbs(r, srcID, tgtID, srcAlh, tgtAlh),
+      ret |-> <<claim>>,                                      \* what the caller now believes: column a of row 1 holds `claim`
+      state |-> <<tgtID, tgtAlh>>]
+
 (* pkg/client/client.go VerifiedTxByID *)
 ClientTxByID(P, T, trustedAlh, r) ==
   LET tgtBranch == T <= P
@@ -230,6 +266,8 @@ Client(op, rel, r) ==
     [] op = "sgetRef" -> ClientStreamGet("r1", T, trusted, r)
     [] op = "txbyid" -> ClientTxByID(P, T, trusted, r)
     [] op = "set" -> ClientSet(T, trusted, r)
+    [] op = "vrowT" -> ClientVerifyRow(100, T, trusted, r)
+    [] op = "vrowF" -> ClientVerifyRow(5, T, trusted, r)
 
 \* what the history holds
 Truth(op, rel) ==
@@ -237,6 +275,7 @@ Truth(op, rel) ==
   [ret |-> CASE op = "txbyid" -> <<Hon(op, P), Entries(op)>>
              [] op = "set" -> <<Hon(op, P)>>
              [] op \in RefOps -> <<"k1", <<"v", 3>>, "md0", 3, "r1", P, "md0", 0>>
+             [] op \in RowOps -> <<HonRow[2]>>
              [] OTHER -> <<"k1", <<"v", 3>>, "md0", P>>,
    state |-> <<hi, HAlh(Hon(op, hi))>>]
 
@@ -246,7 +285,7 @@ Case(op, rel, S) ==
    accept |-> v.ok, harmful |-> v.ret # t.ret \/ v.state # t.state]
 AllCases == UNION {{Case(op, rel, S) : rel \in RelsOf(op), S \in MutSets(op)} : op \in Ops}
 
-Complete == \A c \in AllCases : c.muts = <<>> => c.accept /\ ~c.harmful
+Complete == \A c \in AllCases : c.muts = <<>> => IF c.op = "vrowF" THEN ~c.accept ELSE c.accept /\ ~c.harmful
 Sound    == \A c \in AllCases : c.accept => ~c.harmful
 Unsound  == {c \in AllCases : c.accept /\ c.harmful}
 
